@@ -3,6 +3,8 @@ def T(mod, names):
     return [(mod, n, None) for n in names.split()]
 
 EXTRA = {
+    "C09": T("UriImpProofs", "normalize_elem_imp_correct canon_path_imp_correct"),
+    "C10": T("UriImpProofs", "normalize_elem_imp_correct"),
     "C01": T("SoundnessProofs", "model_creq_is_spec C01_accept_implies_signature C01_accept_implies_signature_modulo_path C01_cross_request "
                                 "C01_signature_shape C01_signature_length C01_bad_signature_refused C01_canonical_request_injective "
                                 "C01_string_to_sign_injective C01_equal_sts_equal_components C01_signed_list_injective")
